@@ -259,9 +259,15 @@ class C03(Plugin):
             lst = getattr(node, field)
             n = len(lst)
             pool = KINDS[kind][0]
-            mode = rng.choice(['slice', 'slice', 'slice', 'one', 'del_one', 'insert'])
+            mode = rng.choice(['slice', 'slice', 'slice', 'one', 'del_one', 'insert', 'subview', 'subview'])
             op = {'k': 'c03', 'mode': mode, 'path': [list(p) for p in path], 'field': field, 'kind': kind}
-            if mode == 'slice':
+            if mode == 'subview':
+                op = self.gen_subview(rng, op, n, mn, pool, kind, tree)
+                if op is None:
+                    return None
+            if mode == 'subview':
+                pass
+            elif mode == 'slice':
                 a, b = O.gen_bounds(rng, n, cfg['wild'])
                 ns = norm_slice(n, a, b)
                 if ns is None:
@@ -300,6 +306,67 @@ class C03(Plugin):
             tw = progen.relayout(rng, run.root.src, 6)
             if tw != run.root.src:
                 op['twin'] = tw
+        return op
+
+    def gen_subview(self, rng, op, n, mn, pool, kind, tree):
+        """An operation on a SUB-VIEW `node.field[s:e]` (non-trivial start/stop, indices relative to the view)."""
+        def bound(lo):
+            r = rng.random()
+            if r < 0.12:
+                return None
+            if r < 0.3 and n:
+                return rng.randrange(-n, 0)
+            return rng.randrange(lo, n + 1)
+        s_, e_ = bound(0), bound(0)
+        ns = norm_slice(n, 0 if s_ is None else s_, e_)
+        if ns is None:
+            s_, e_ = e_, s_
+            ns = norm_slice(n, 0 if s_ is None else s_, e_)
+            if ns is None:
+                return None
+        m = ns[1] - ns[0]
+        vop = rng.choice(['insert', 'insert', 'insert', 'append', 'prepend', 'extend', 'prextend', 'setitem', 'delitem',
+                          'setslice', 'delslice', 'replace', 'remove'])
+        single_only = KINDS[kind][2] is None
+
+        def el():
+            e = rng.choice(pool)
+            if kind == 'stmt' and len(ast.parse(e).body) != 1:
+                e = 'pass'
+            return e
+        op.update(s=s_, e=e_, vop=vop, entry='subview_' + vop)
+        if vop == 'insert':
+            op.update(idx=O.gen_index(rng, m + 1, 0.45), elems=[el()])
+        elif vop in ('append', 'prepend'):
+            op.update(elems=[el()])
+        elif vop in ('extend', 'prextend'):
+            op.update(elems=[el() for _ in range(1 if single_only else rng.choice((1, 2, 3)))])
+        elif vop in ('setitem', 'delitem'):
+            if m == 0 and rng.random() < 0.8:
+                return None
+            i = O.gen_index(rng, m, 0.1)
+            if i == 'end':
+                i = m
+            op.update(idx=i)
+            if vop == 'setitem':
+                op.update(elems=[el()])
+        elif vop in ('setslice', 'delslice'):
+            a, b = O.gen_bounds(rng, m, 0.3)
+            a, b = (None if a == 'end' and False else a), (None if b == 'end' else b)
+            if a == 'end':
+                return None
+            op.update(a=a, b=b)
+            if vop == 'setslice':
+                op.update(elems=[el() for _ in range(1 if single_only else rng.choice((1, 1, 2, 3)))])
+        elif vop == 'replace':
+            op.update(elems=[el() for _ in range(1 if single_only else rng.choice((1, 2, 3)))])
+        exp = self.expected(tree, op)
+        if exp is None:
+            return None
+        if exp != 'IndexError':
+            node = resolve(exp, [tuple(p) for p in op['path']])
+            if len(getattr(node, op['field'])) < mn:
+                return None
         return op
 
     # -- model --------------------------------------------------------------------------------------------------------
@@ -355,6 +422,46 @@ class C03(Plugin):
             if not -n <= idx < n:
                 return 'IndexError'
             del lst[idx]
+        elif mode == 'subview':
+            ns = norm_slice(n, 0 if op['s'] is None else op['s'], op['e'])
+            if ns is None:
+                return None
+            sub = lst[ns[0]:ns[1]]
+            m = len(sub)
+            vop = op['vop']
+            if vop == 'insert':
+                if op['idx'] == 'end':
+                    sub.extend(new)
+                else:
+                    sub[op['idx']:op['idx']] = new
+                    if len(new) != 1:
+                        return None
+            elif vop in ('append', 'extend'):
+                sub.extend(new)
+            elif vop in ('prepend', 'prextend'):
+                sub[0:0] = new
+            elif vop in ('setitem', 'delitem'):
+                i = op['idx']
+                if not -m <= i < m:
+                    return 'IndexError'
+                if vop == 'setitem':
+                    if len(new) != 1:
+                        return None
+                    sub[i] = new[0]
+                else:
+                    del sub[i]
+            elif vop in ('setslice', 'delslice'):
+                ns2 = norm_slice(m, 0 if op['a'] is None else op['a'], op['b'])
+                if ns2 is None:
+                    return None
+                sub[ns2[0]:ns2[1]] = new
+            elif vop == 'replace':
+                sub[:] = new
+            elif vop == 'remove':
+                sub[:] = []
+            else:
+                return None
+            lst[ns[0]:ns[1]] = sub
         elif mode == 'insert':
             idx = op['idx']
             e = op['entry']
@@ -377,7 +484,7 @@ class C03(Plugin):
         if op['mode'] in ('opt_put',):
             return elems[0]
         sep = KINDS[kind][2]
-        if kind == 'decorator' and (len(elems) > 1 or op['mode'] == 'slice'):
+        if kind == 'decorator' and (len(elems) > 1 or op['mode'] == 'slice' or op.get('vop') in ('extend', 'prextend', 'setslice', 'replace')):
             return '\n'.join('@' + e for e in elems)
         if kind == 'assign_target' and len(elems) > 1:
             return ' = '.join(elems) + ' ='
@@ -443,6 +550,35 @@ class C03(Plugin):
                 if entry == 'prextend' and ns[0] == 0:
                     return f.prextend(code, field, **opts)
                 return f.put_slice(code, a, bb, field, **opts)
+        elif mode == 'subview':
+            v = getattr(f, field)[op['s']:op['e']]
+            vop = op['vop']
+            if vop == 'insert':
+                return v.insert(code, op['idx'], **opts)
+            if vop == 'append':
+                return v.append(code, **opts)
+            if vop == 'prepend':
+                return v.prepend(code, **opts)
+            if vop == 'extend':
+                return v.extend(code, **opts)
+            if vop == 'prextend':
+                return v.prextend(code, **opts)
+            if vop == 'setitem':
+                v[op['idx']] = code
+                return None
+            if vop == 'delitem':
+                del v[op['idx']]
+                return None
+            if vop == 'setslice':
+                v[op['a']:op['b']] = code
+                return None
+            if vop == 'delslice':
+                del v[op['a']:op['b']]
+                return None
+            if vop == 'replace':
+                return v.replace(code, one=False, **opts)
+            if vop == 'remove':
+                return v.remove(**opts)
         elif mode == 'one':
             idx = op['idx']
             if entry == 'put':
@@ -537,7 +673,7 @@ class C03(Plugin):
             if op.get('elems') and op['a'] == op['b']:
                 e += ['insert', 'view_insert', 'extend', 'prextend']
             return e
-        return {'one': ONE_ENTRIES, 'del_one': DEL_ENTRIES, 'insert': [op['entry']], 'opt_put': OPT_PUT_ENTRIES,
+        return {'one': ONE_ENTRIES, 'del_one': DEL_ENTRIES, 'insert': [op['entry']], 'subview': [op['entry']], 'opt_put': OPT_PUT_ENTRIES,
                 'opt_del': OPT_DEL_ENTRIES}[mode]
 
     # -- run hooks ----------------------------------------------------------------------------------------------------
